@@ -79,7 +79,11 @@ pub(crate) fn parse_function_call(
 		// Default values should be created in newly created context
 		let fctx = Context::new_future();
 		let mut defaults =
-			FxHashMap::with_capacity(params.binds_len() - filled_named - filled_positionals);
+			FxHashMap::with_capacity(
+				params
+					.binds_len()
+					.saturating_sub(filled_named + filled_positionals),
+			);
 
 		for (idx, into, default) in params
 			.exprs
